@@ -29,6 +29,7 @@ def run(ctx):
     ctx.guard(rule_b, ctx, ix)
     ctx.guard(rule_c, ctx, ix)
     ctx.guard(rule_d, ctx, ix)
+    ctx.guard(rule_e, ctx, ix)
 
 
 def _stmts(f):
@@ -245,3 +246,33 @@ def rule_d(ctx, ix):
     tb = [norm(st) for st in body_stmts(ub.node)]
     ctx.ob(R, ub.construct, 'ApplyROI.undo and ApplySubsetState.undo restore the same things', ta == tb,
            detail='the two selection commands undo differently: %s vs %s' % (ta, tb), where=ub.where)
+
+
+def rule_e(ctx, ix):
+    """The session wires the stack, the edit mode and the collection together; the application delegates un-crossed."""
+    R = 'C13.e'
+    ctx.describe(R, 'session / application wiring of the command stack', floor=5)
+    ses = ix.cls('glue.core.session.Session')
+    f = ses.resolve_func('__init__')
+    s = f.self_name
+    stores = {unparse(st.targets[0]): unparse(st.value) for st in walk_no_nested(f.node) if isinstance(st, ast.Assign)}
+    ctx.ob(R, f.construct, 'commands receive this session', stores.get('%s.command_stack.session' % s) == s,
+           detail='Session.__init__ does not hand itself to its command stack (command_stack.session = self): commands are '
+                  'executed with another (or no) session', where=f.where)
+    ctx.ob(R, f.construct, 'the edit mode works on this session\'s collection',
+           stores.get('%s.edit_subset_mode.data_collection' % s) == '%s.data_collection' % s,
+           detail='Session.__init__ does not connect the edit-subset mode to the session\'s data collection', where=f.where)
+    app = ix.cls('glue.core.application_base.Application')
+    init = app.resolve_func('__init__')
+    ok = any(isinstance(st, ast.Assign) and unparse(st.targets[0]).endswith('._cmds') and unparse(st.value).endswith('._session.command_stack')
+             for st in walk_no_nested(init.node))
+    ctx.ob(R, init.construct, 'the application drives the session\'s command stack', ok,
+           detail='Application.__init__ no longer takes its command stack from the session', where=init.where)
+    for name in ('do', 'undo', 'redo'):
+        g = app.resolve_func(name)
+        if g is None:
+            raise AnalysisError('Application.%s vanished' % name)
+        cs = [c for c in calls_in(g.node) if isinstance(c.func, ast.Attribute) and unparse(c.func.value).endswith('._cmds')]
+        ok = len(cs) == 1 and cs[0].func.attr == name
+        ctx.ob(R, g.construct, 'Application.%s delegates to CommandStack.%s' % (name, name), ok,
+               detail='Application.%s calls %s on the command stack' % (name, [c.func.attr for c in cs]), where=g.where)
